@@ -68,12 +68,14 @@ CLAIMED = {
             "decoding.  Parser.tla stimuli (header/trailer grammar, bit flips, truncations) are replayed through parse().",
             "Not exhaustive (seeded sampling).  Reference = BZ2.tla verdicts / the inspector calibrated against BZ2.tla.",
             "DESIGN.md 3 (C05)"),
-    "C06": ("other", "TLC-generated valid files varying every legal degree of freedom (spec/BZ2.tla) + libbz2 output + legal extremes, replayed into the binary",
+    "C06": ("other", "TLC-generated valid files varying every legal degree of freedom (spec/BZ2.tla) + libbz2 output + legal extremes, replayed into the binary; spec/Imtf.tla (inverse MTF of decode.c) model-checked and replayed through mtf_one()",
             "Valid files from BZ2.tla (2-6 tables incl. malformed unused ones, 20-bit codes, delta detours, arbitrary and "
             "surplus selectors, randomised blocks, any index, bit offsets, multi-level concatenations, trailing data), libbz2 "
             "output at levels 1-9, the repository's specimens and extremes built in the block-sorted domain (18001 groups, "
             "32767 selectors, randomised > 617 bytes) must be accepted with exactly the specified plaintext; only the two "
-            "documented exceptions may be rejected.",
+            "documented exceptions may be rejected.  Imtf.tla: the sliding-lists inverse move-to-front (fast path, general path, "
+            "pool rebuild) equals the naive list for every call sequence (small constants, exhaustive) and along seeded call "
+            "sequences with the code's constants, whose behaviours are replayed through the real mtf_one() across rebuilds.",
             "Not exhaustive.  Expected bytes from the calibrated serialiser/inspector, cross-checked with libbz2.", "DESIGN.md 3 (C06)"),
     "C07": ("fault_enumeration", "enumeration of truncation points / spec-derived defects / inspector-judged corruptions replayed into the binary",
             "Every truncation point of a set of valid files (exhaustive per file), BZ2.tla single-defect files, corruptions "
